@@ -113,7 +113,7 @@ def tile_is_one(sk):
     return {i: (last[it[1]] == i) for i, it in enumerate(sk) if it[0] == "L"}
 
 
-def gen_skeletons(arch_kind, wl_kind, n, seed, max_loops_per_rv=2, fixed_first=True):
+def gen_skeletons(arch_kind, wl_kind, n, seed, max_loops_per_rv=2, fixed_first=True, nomain_prob=0.0):
     """Deterministic family: a few canonical shapes followed by random ones.  Every tensor has its
     outermost holder in Main above all loops; lower holders are optional, ordered per tensor by
     the hierarchy, placed in any slot between loops."""
@@ -123,9 +123,10 @@ def gen_skeletons(arch_kind, wl_kind, n, seed, max_loops_per_rv=2, fixed_first=T
     lower = levels[1:]
     out, seen = [], set()
 
-    def make(loop_seq, placements):
+    def make(loop_seq, placements, nomain=()):
         # placements: {(tensor, level): slot}; slot s = before loop index s (s == len -> after all)
-        sk = [("S", levels[0], t) for t in tensors]
+        # nomain: tensors that are never held in the outermost memory (their first lower holder backs them)
+        sk = [("S", levels[0], t) for t in tensors if t not in nomain]
         for s in range(len(loop_seq) + 1):
             here = sorted((levels.index(lv), t) for (t, lv), sl in placements.items() if sl == s)
             for li, t in here:
@@ -163,6 +164,8 @@ def gen_skeletons(arch_kind, wl_kind, n, seed, max_loops_per_rv=2, fixed_first=T
             seq += [rv] * rng.randint(1, max_loops_per_rv)
         rng.shuffle(seq)
         pl = {}
+        nomain = []
+        mems = [nm for k, nm in ARCHS[arch_kind] if k == "mem"]
         for t in tensors:
             lo = 0
             for lv in lower:
@@ -170,7 +173,17 @@ def gen_skeletons(arch_kind, wl_kind, n, seed, max_loops_per_rv=2, fixed_first=T
                     s = rng.randint(lo, len(seq))
                     pl[(t, lv)] = s
                     lo = s
-        add(make(seq, pl))
+            if nomain_prob and rng.random() < nomain_prob and len(mems) > 1:
+                # the tensor's outermost holder is the second memory, somewhere below the top
+                first = mems[1]
+                if (t, first) not in pl:
+                    pl[(t, first)] = rng.randint(0, min(pl[(t, lv)] for lv in lower if (t, lv) in pl) if any((t, lv) in pl for lv in lower) else len(seq))
+                # no Toll above the first real holder
+                for lv in lower:
+                    if lv != first and (t, lv) in pl and levels.index(lv) < levels.index(first):
+                        del pl[(t, lv)]
+                nomain.append(t)
+        add(make(seq, pl, nomain))
     return out[:n]
 
 
